@@ -356,6 +356,9 @@ class FreeEnergy(InterpolatableFunction):
                 except RuntimeWarning as error:
                     logging.error(error.args[0] + f" at T={ode.t}")
                     break
+                except np.linalg.LinAlgError:
+                    # Singular Hessian: the minimum is disappearing, stop tracing here
+                    break
                 if paranoid:
                     phaset, potentialEffT = self.effectivePotential.findLocalMinimum(
                         Fields((ode.y)),
